@@ -49,13 +49,15 @@ CHECKS = {
     'C04': sched('the kill oracle (never raises, never lost, no step starts after it, result True iff KILLED, text '
                  'recorded, future().cancel() equivalent also when the step in flight fails, a kill whose returned action is '
                  'cancelled again is withdrawn and leaves the process killable, unkillability probe from every live end configuration); also on work '
-                 'chains awaiting futures / children, with K=4 on the smallest programs, and on processes recreated from a '
-                 'checkpoint at every waiting / paused point.',
+                 'chains awaiting futures / children, with K=4 on the smallest programs, on processes recreated from a '
+                 'checkpoint at every waiting / paused point, and in bursts of <=5 (thorough 6) requests right behind one another at '
+                 'the quiescent points of two waiting programs.',
                  'DESIGN.md 3 C04'),
     'C05': sched('the pause/play transparency oracle (no raise, nothing runs while paused, play un-pauses and withdraws a '
                  'pending pause - as does cancelling the action pause() returned -, trace/outputs/result equal to the uninterrupted run, '
                  'status restored, no step is entered while a pause request stands); also on work chains '
-                 'and with K=4 (thorough 6) on the smallest programs.',
+                 'and with K=4 (thorough 6) on the smallest programs, and in bursts of <=4 (thorough 5) requests right behind one another at '
+                 'quiescent points.',
                  'DESIGN.md 3 C05'),
     'C06': sched('the wake-up oracle (an accepted resume / completed awaitables always lead to the continuation running '
                  'exactly once with the first accepted value - also a value whose == answers yes to everything -, never WAITING at '
